@@ -37,11 +37,18 @@ type Runner struct {
 	insErr   error
 }
 
-func (r *Runner) sig() progress {
+func (r *Runner) sig() progress { return r.sigq(true) }
+
+// sigq: while Stop() runs the archiver's globals are being reset, so the WARC queue is left out then.
+func (r *Runner) sigq(queue bool) progress {
 	r.mu.Lock()
 	ins := r.inserted
 	r.mu.Unlock()
-	return progress{r.P.Farm.LogLen(), r.P.NFinished(), int(r.P.Farm.Active()), r.P.WARCQueue(), ins}
+	q := 0
+	if queue {
+		q = r.P.WARCQueue()
+	}
+	return progress{r.P.Farm.LogLen(), r.P.NFinished(), int(r.P.Farm.Active()), q, ins}
 }
 
 // Feed inserts the seeds from a source goroutine (back-pressure through the reactor's tokens) and returns when all of
@@ -89,9 +96,10 @@ func (r *Runner) InsertErr() error {
 
 // StopWatched calls Stop and reports a hang when it does not return although nothing moves any more.
 func (r *Runner) StopWatched() (hang string) {
+	queued := r.P.WARCQueue()
 	done := make(chan struct{})
 	go func() { r.P.Stop(); close(done) }()
-	last, lastChange := r.sig(), time.Now()
+	last, lastChange := r.sigq(false), time.Now()
 	win := r.P.S.Window()
 	for {
 		select {
@@ -100,10 +108,10 @@ func (r *Runner) StopWatched() (hang string) {
 		default:
 		}
 		time.Sleep(5 * time.Millisecond)
-		if s := r.sig(); s != last {
+		if s := r.sigq(false); s != last {
 			last, lastChange = s, time.Now()
 		} else if time.Since(lastChange) > win {
-			return fmt.Sprintf("Stop() has not returned and nothing has moved for %s: %d connections still await their WARC records", win, last.queue)
+			return fmt.Sprintf("Stop() has not returned and nothing has moved for %s: %d connection(s) had not delivered their WARC records when the stop began", win, queued)
 		}
 	}
 }
